@@ -22,7 +22,7 @@ class Unrepresentable(Exception):
 
 def fq(x: float) -> int:
     q = x * 4
-    if q != int(q) or abs(q) > 2**30:
+    if q != q or q in (float("inf"), float("-inf")) or q != int(q) or abs(q) > 2**30:
         raise Unrepresentable(f"float {x}")
     return int(q)
 
